@@ -72,6 +72,7 @@ type sysRun struct {
 	FailInvRead []int             `json:"failInvRead,omitempty"` // n-th LIST of the inventory objects fails
 	FailGet     []jid             `json:"failGet,omitempty"`     // every GET of these objects fails
 	InvAlt      bool              `json:"invAlt,omitempty"`      // the local inventory template is named differently from the other runs' template
+	FailInfo    []string          `json:"failInfo,omitempty"`    // kinds for which no REST client can be built in this run (BuildInfo fails at apply time)
 	FailCode    int               `json:"failCode,omitempty"`    // HTTP status of the injected faults of this run: 0 = 500, 403, 422 (the library treats them alike)
 	Ctrl        map[string]string `json:"ctrl,omitempty"`        // id key -> current | stale | never | failed | failed-current | replaced
 	Del         map[string]string `json:"del,omitempty"`         // id key -> gone | finalizer | finalizer-gone
@@ -408,6 +409,8 @@ func skipReason(err error) string {
 	}
 	s := err.Error()
 	switch {
+	case strings.Contains(s, "no REST client for"):
+		return "info"
 	case strings.Contains(s, "injected fault"):
 		return "fault"
 	case strings.Contains(s, "annotation prevents deletion"):
@@ -582,6 +585,11 @@ func runOne(c *fakecluster.Cluster, run sysRun) (out runOut) {
 	dyn := c.Dynamic()
 	f := &sysFactory{TestFactory: tf, dyn: dyn}
 	clientFor := func(m *meta.RESTMapping) (resource.RESTClient, error) {
+		for _, k := range run.FailInfo {
+			if m.GroupVersionKind.Kind == k {
+				return nil, fmt.Errorf("no REST client for %s (injected)", m.GroupVersionKind)
+			}
+		}
 		group := m.Resource.Group
 		return &fake.RESTClient{
 			NegotiatedSerializer: resource.UnstructuredPlusDefaultContentConfig().NegotiatedSerializer,
